@@ -16,12 +16,12 @@ CHECKS = {
 CHECKS.update({
  "C08": ("enum", "exploration",
          "bounded-exhaustive enumeration of CLI runs (streams x filters x destinations x sources) against the model's chain walk + filter predicate",
-         "All link patterns over 3 links up to length 4 (5 thorough) x every present link / FEE / layer-stave value and one absent value each x {-o file, implicit stdout, -o stdout} x {file, stdin} on the real binary; batch multiples (99..300 packets); every header byte of a non-first packet at 0x00/0xFF/0xA5; payload totals > 2^16. Each output is compared byte for byte with the concatenation the model computes, must walk cleanly, must be reproduced by filtering it again, the Filter-stats count must equal the number of matching packets, and the per-link outputs must partition the input.",
+         "All link patterns over 3 links up to length 4 (5 thorough) x every present link / FEE / layer-stave value and one absent value each x {-o file, implicit stdout, -o stdout} x {file, stdin} on the real binary; batch multiples (99..300 packets); every header byte of a non-first packet at 0x00/0xFF/0xA5; payload totals > 2^16; the -o destination absent / holding a short / a longer stale file. Each output is compared byte for byte with the concatenation the model computes, must walk cleanly, must be reproduced by filtering it again, the Filter-stats count must equal the number of matching packets, and the per-link outputs must partition the input.",
          "Trusts the model's filter predicates (link id equality, FEE id equality, layer[14:12]+stave[5:0] equality) taken from the option documentation; first packet of every stream carries a recognisable RDH0.",
          True),
  "C10": ("xs+enum", "model_checking",
          "explicit-state BFS to fixpoint over the product (documented running-rule automaton x real LinkValidator RDH checkers) with a per-step oracle; plus complete single/pair bit-flip and boundary-value enumeration",
-         "xs: every RDH sequence over a 192-symbol alphabet (page 0..3 x stop 0..2 x 2 orbits x 2 triggers x 2 FEE ids x 2 detector fields) that starts with pages 0,1 is covered by closure: BFS over (model state, implementation fingerprint) reaches a fixpoint (393 states, 74 000 transitions), every transition executed on the real LinkValidator and judged: E10 iff rule table, E11 iff documented running rules, at the RDH's offset; merged histories are re-checked on the full alphabet (abstraction check). enum: all 512 single-bit flips at RDH 0/1/4 of a 6-RDH sequence x 4 modes, pairs of flips at RDH 4 (all 130 816 in thorough, a fixed quarter in quick), field boundary sets; whole-sequence verdicts compared with the rule table.",
+         "xs: every RDH sequence over a 192-symbol alphabet (page 0..3 x stop 0..2 x 2 orbits x 2 triggers x 2 FEE ids x 2 detector fields) that starts with pages 0,1 is covered by closure: BFS over (model state, implementation fingerprint) reaches a fixpoint (393 states, 74 000 transitions), every transition executed on the real LinkValidator and judged: E10 iff rule table, E11 iff documented running rules, at the RDH's offset; merged histories are re-checked on the full alphabet (abstraction check). enum: all 512 single-bit flips at RDH 0/1/4 of a 6-RDH sequence x 4 modes, pairs of flips at RDH 4 (all 130 816 in thorough, a fixed quarter in quick), pairs of flips at the first RDH (one bit inside RDH0 in quick, all pairs in thorough: the first RDH initialises the per-link memories), field boundary sets; whole-sequence verdicts compared with the rule table.",
          "Trusts the rule table of DESIGN.md Appendix A (checks_list.md + property text: BC 0xdeb legal, detector-field bits 12..23 reserved, detector-field change is a warning). Expected page counters > 5 are merged (alphabet pages <= 3), verified by the abstraction check.",
          True),
  "C11": ("enum", "exploration",
@@ -39,7 +39,7 @@ CHECKS.update({
          False),
  "C12": ("enum", "exploration",
          "bounded-exhaustive enumeration of payload shapes (format x word count x padding length) through the real slicer and a real LinkValidator against the model slicer",
-         "Formats {0,2} x word counts {0..12, 511, 512, 700 quick / every count 0..700 thorough} x 0..40 trailing 0xFF bytes (so every size residue mod 10 and mod 16) through preprocess_payload (count and bytes of every chunk) and through a real LinkValidator in two modes with individually recognisable faulty words (the set of reported offsets + quoted bytes shows exactly which bytes were examined as words, once each, in order); > 15 bytes of 0xFF: exactly one 'Payload error following RDH' at the RDH offset, no word examined, FSM state id back to initial (hook) and a following conforming HBF accepted. The two readout-frame views on the real CLI for word counts {2,3,8..11,16} (thorough {2..40,511,512,700}) x 0..15 padding bytes x both formats: every printed row is the model's decode of a real word, none comes from padding.",
+         "Formats {0,2} x word counts {0..12, 511, 512, 700 quick / every count 0..700 thorough} x 0..40 trailing 0xFF bytes (so every size residue mod 10 and mod 16) through preprocess_payload (count and bytes of every chunk) and through a real LinkValidator in two modes with individually recognisable faulty words (the set of reported offsets + quoted bytes shows exactly which bytes were examined as words, once each, in order); > 15 bytes of 0xFF: exactly one 'Payload error following RDH' at the RDH offset, no word examined, FSM state id back to initial (hook) and a following conforming HBF accepted, from 14 lead-in states (every prefix of a complete page and of a page ending with TDT packet_done = 0); all 63 proper subsets of zero bytes among the first six bytes of the second word of a format-2 payload must still be cut as format 2. The two readout-frame views on the real CLI for word counts {2,3,8..11,16} (thorough {2..40,511,512,700}) x 0..15 padding bytes x both formats: every printed row is the model's decode of a real word, none comes from padding.",
          "Word contents that imitate the other format's padding (format-2 payload with six zero bytes at 10..15) are a separate row, see known findings / DESIGN.md section 6.",
          True),
 })
@@ -47,12 +47,12 @@ CHECKS.update({
 CHECKS.update({
  "C01": ("xs+enum", "model_checking",
          "explicit-state BFS to fixpoint over the product (stream grammar as generator automaton x real LinkValidator stepped packet by packet), invariant 'no error message' on every transition; witness streams re-run on the CLI",
-         "Per configuration (barrel x data format x RDH version x internal/physics triggers x detector-field status bits x the five check modes; stave mode with ALPIDE frames from the independent encoder, chip-empty frames with bunch counter 0 included) the product of the grammar automaton (pages with no-data runs, data events, CDW at start, events left open and continued over one or more pages, stop pages; 2 alternating orbits, BC ladder, 2 trigger types) and a real LinkValidator (verif_step = one iteration of run()) is explored breadth-first over (grammar state, implementation fingerprint) to its fixpoint (quick: 44 320 states / 368 836 transitions over 36 configurations); every transition is a real packet pushed through the real checks and must emit no Error/Fatal. Merged histories are re-checked on the full alphabet. Second tier: maximal witness streams replicated over 1/2/3/12 links (contiguous and round-robin), padded around the 100-packet batch, run on the real CLI in the mode x {-, -m} x {-, -E 7}: no ERROR line, Total Errors 0, statistics total_errors 0, exit 0.",
+         "Per configuration (barrel x data format x RDH version x internal/physics triggers x detector-field status bits x the five check modes; stave mode with ALPIDE frames from the independent encoder, chip-empty frames with bunch counter 0 included) the product of the grammar automaton (pages with no-data runs, data events, CDW at start, events left open and continued over one or more pages, stop pages; 2 alternating orbits, BC ladder, 2 trigger types) and a real LinkValidator (verif_step = one iteration of run()) is explored breadth-first over (grammar state, implementation fingerprint) to its fixpoint (quick: 44 320 states / 368 836 transitions over 36 configurations); every transition is a real packet pushed through the real checks and must emit no Error/Fatal. Merged histories are re-checked on the full alphabet. Plus every lane identifier of every link kind (IB lane groups, ML/OL upper and lower halves, both data formats) in every word position (first after the TDH, after a CDW, first / last on a continuation page, last before the TDT). Second tier: maximal witness streams replicated over 1/2/3/12 links (contiguous and round-robin), padded around the 100-packet batch, run on the real CLI in the mode x {-, -m} x {-, -E 7}: no ERROR line, Total Errors 0, statistics total_errors 0, exit 0.",
          "Finite value registers (see evidence assumptions); hit contents from the encoder's finite alphabet; HBFs of at most 3 data pages (+1 to close an open event). Longer streams are covered by state closure under the checked abstraction, not by length. Equal consecutive trigger BCs are not generated (documents disagree).",
          True),
  "C02": ("enum", "exploration",
          "bounded-exhaustive fault enumeration: witness streams x fault catalogue x every applicable position x check modes, in-process through real LinkValidators (dispatched per link / FEE id) and on the CLI",
-         "6 witness streams (IB format 2 internal triggers, OL format 0 physics triggers, ML+IB interleaved; each also with ALPIDE frames for stave mode) x 63 catalogue faults (every RDH sanity field, RDH running rules, status/data word identifier and reserved-bit rules, state-dependent ITS rules E12/E110/E111/E41/E42/E44x/E71-73/E81, padding > 15) x every applicable RDH / word occurrence x 5 modes: at least one message of the rule's code family at the byte offset of the mutated RDH or word in every mode where the rule is active; no running code in any check sanity run; first applicable site per (witness, fault, mode) also on the CLI with -E 9 (exit status 9, message on stderr). A fault with no applicable site anywhere is a machinery error (vacuity guard).",
+         "6 witness streams (built from the grammar's shape menus, which include pages ending with a no-data TDH followed by further pages; IB format 2 internal triggers, OL format 0 physics triggers, ML+IB interleaved; each also with ALPIDE frames for stave mode) x 63 catalogue faults (every RDH sanity field, RDH running rules, status/data word identifier and reserved-bit rules, state-dependent ITS rules E12/E110/E111/E41/E42/E44x/E71-73/E81, padding > 15) x every applicable RDH / word occurrence x 5 modes: at least one message of the rule's code family at the byte offset of the mutated RDH or word in every mode where the rule is active; no running code in any check sanity run; first applicable site per (witness, fault, mode) also on the CLI with -E 9 (exit status 9, message on stderr). A fault with no applicable site anywhere is a machinery error (vacuity guard).",
          "Trusts the rule table (DESIGN.md Appendix A). Consequential extra errors are allowed (the property says at least one). RDH0-level faults in the first packet of a file are judged in-process only (the CLI refuses such input at start-up).",
          True),
 })
@@ -60,12 +60,12 @@ CHECKS.update({
 CHECKS.update({
  "C07": ("enum", "exploration",
          "bounded-exhaustive enumeration of error-producing runs; every produced message is compared with the input bytes it points at",
-         "Every message of: the C02 fault x site menu in the modes of each witness; witness streams whose payload words / non-framing header bytes are replaced by arbitrary bytes (both data formats, 6 salts quick / 24 thorough) x 4-5 modes x {no filter, each link, each FEE id, each layer-stave filter} x {file-like, pipe-like scanner}; the same streams with empty-payload packets (offset to next = 64) of a foreign / the same link inserted at three position patterns (stepped over by the scanner in RDH-only modes and under filters); truncated tails; a CLI subset (file and stdin). Per message: leading offset inside the input and at the start of an RDH or of a word slot of that packet's data format; the [b0..b9] dump that ends a word-level message equals the ten bytes at that offset; the `current :` row equals the RDH decoded at that offset and the `previous:` rows equal the same link's (FEE's in stave mode) two preceding RDHs.",
+         "Every message of: the C02 fault x site menu in the modes of each witness; witness streams whose payload words / non-framing header bytes are replaced by arbitrary bytes (both data formats, 6 salts quick / 24 thorough) x 4-5 modes x {no filter, each link, each FEE id, each layer-stave filter} x {file-like, pipe-like scanner}; the same streams with empty-payload packets (offset to next = 64) of a foreign / the same link inserted at three position patterns (stepped over by the scanner in RDH-only modes and under filters); format-2 payloads whose second word begins with 1..5 zero bytes; truncated tails; a CLI subset (file and stdin). Per message: leading offset inside the input and at the start of an RDH or of a word slot of that packet's data format; the [b0..b9] dump that ends a word-level message equals the ten bytes at that offset; the `current :` row equals the RDH decoded at that offset and the `previous:` rows equal the same link's (FEE's in stave mode) two preceding RDHs.",
          "Premise of the property: payload layout agrees with the header's data format. Known finding: [E100]/[E101] point past the end of a truncated packet (pinned by an existing test, so not repaired). Panics are C04's subject.",
          True),
  "C18": ("enum", "fault_enumeration",
          "every cut position of the base streams (crash-point style enumeration of the end of input), in-process and on the CLI, compared with the untruncated run",
-         "Every cut position 0..=len of 4 base streams (2-HBF single link with and without ALPIDE frames, two interleaved links in different data formats, a corrupted stream that produces messages before the cut): in-process through the real scanner (file-like and pipe-like) and real validators in check all / check all its / check all its-stave; on the real CLI from file and stdin for check all its(-stave) (messages + RDH count from the statistics file), view rdh -d and view its-readout-frames -d (rows). Normal termination (exit 0/1, no signal, no timeout), messages and rows for packets complete before the cut identical to the untruncated run, everything else attributed to the incomplete final packet.",
+         "Every cut position 0..=len of 5 base streams (2-HBF single link with and without ALPIDE frames, two interleaved links in different data formats, a corrupted stream that produces messages before the cut, a faulty stream of 112/80-byte packets whose end offsets run through many leading hex digits): in-process through the real scanner (file-like and pipe-like) and real validators in check all / check all its / check all its-stave; on the real CLI from file and stdin for check all its(-stave) (messages + RDH count from the statistics file), view rdh -d and view its-readout-frames -d (rows). Normal termination (exit 0/1, no signal, no timeout), messages and rows for packets complete before the cut identical to the untruncated run, everything else attributed to the incomplete final packet.",
          "A message whose offset lies at or beyond the first incomplete packet is taken to concern that packet.",
          True),
 })
@@ -73,12 +73,12 @@ CHECKS.update({
 CHECKS.update({
  "C05": ("sched", "model_checking",
          "stateless controlled-scheduler exploration of the real threads (all schedules with <= d deviations from the default schedule, replayable), plus exhaustive merge closure of per-sender message sequences through the real collector",
-         "(a) The whole real pipeline (controller, reader, analysis/dispatcher, one validator per link or FEE id, statistics forwarder) runs as real OS threads under fp_sched: crossbeam_channel, flume, thread spawn/join and AtomicBool are swapped for scheduler shims (mirror packages + cfg(fastpasta_verif_sched) import swap), every channel operation, flag access, spawn, join, disconnection and thread exit is a scheduling point, every statistics send included. For 9 scenarios (check all / its / its-stave, muted and unmuted, 2-3 interleaved links with an E10+E11 pair on every RDH, JSON and TOML; two with the last payload cut short so that the reader's own E100 competes with the validators' messages) every schedule with at most 1 deviation (quick; 2 thorough) from each of two base schedules (default policy prefers the oldest / the youngest waiting thread, so orders that need many deviations from one base are reached from the other) is executed: statistics file bytes, any-errors flag and normal completion must be identical; the default schedule is replayed twice first (no uncontrolled nondeterminism). (b) Arrival-order closure: every order-preserving merge of per-validator error sequences for shapes around the standard library's unstable-sort thresholds ((2k,2) for k up to 24, (16,4), (4,4,4); more in thorough; 80 494 merges quick) through a fresh real StatsCollector (collect, finalize, serialise), muted and unmuted: one distinct output. (c) Commutation of collect over all ordered pairs of message kinds on representative states (only same-sender kinds may depend on order).",
+         "(a) The whole real pipeline (controller, reader, analysis/dispatcher, one validator per link or FEE id, statistics forwarder) runs as real OS threads under fp_sched: crossbeam_channel, flume, thread spawn/join and AtomicBool are swapped for scheduler shims (mirror packages + cfg(fastpasta_verif_sched) import swap), every channel operation, flag access, spawn, join, disconnection and thread exit is a scheduling point, every statistics send included. For 9 scenarios (check all / its / its-stave, muted and unmuted, 2-3 interleaved links with an E10+E11 pair on every RDH, JSON and TOML; two with the last payload cut short so that the reader's own E100 competes with the validators' messages; one check combined with a filter and an ignored -o destination) every schedule with at most 1 deviation (quick; 2 thorough) from each of two base schedules (default policy prefers the oldest / the youngest waiting thread, so orders that need many deviations from one base are reached from the other) is executed: statistics file bytes, any-errors flag and normal completion must be identical; the default schedule is replayed twice first (no uncontrolled nondeterminism). (b) Arrival-order closure: every order-preserving merge of per-validator error sequences for shapes around the standard library's unstable-sort thresholds ((2k,2) for k up to 24, (16,4), (4,4,4); more in thorough; 80 494 merges quick) through a fresh real StatsCollector (collect, finalize, serialise), muted and unmuted: one distinct output. (c) Commutation of collect over all ordered pairs of message kinds on representative states (only same-sender kinds may depend on order).",
          "One channel operation / flag access = one atomic step (crossbeam/flume are linearizable; the shim's enabledness rules are bound to the real crates by the depth-5/6 conformance run in C17). Complete only up to the deviation bound for the whole pipeline and for the listed merge shapes. Runs with an error cap or a fatal input error are excluded by the property.",
          True),
  "C17": ("sched+tlc+enum", "model_checking",
          "controlled-scheduler exploration with the stop event (Signal pseudo-thread, error cap, fatal error) placed at every scheduling point, small worlds (queue capacity 1-2), deadlock = no enabled thread; stdout closed after every N bytes on the real CLI; shim/real channel conformance",
-         "sched: the real pipeline with every bounded queue overridden to capacity 1 or 2 and batches of 2 packets; a Signal pseudo-thread (does what the ctrl-c handler does) is a lazy thread, so each 1-deviation schedule places the signal at one scheduling point of the default schedule (thorough: of every 1-deviation schedule); error cap -e N for N up to the total; a fatal framing error at every packet index; check all, check all its and filtered writing. Per execution: terminates (exact enabledness: no enabled thread while some thread is alive = deadlock; step horizon), no panic, main reaches its end with every thread joined, a filtered output file walks as whole packets and is a prefix of the expected filtered stream. Vacuity guards: a bounded queue was full in some execution, the stop flag was raised. Real OS signals on the real binary (the ctrl-c handler itself): {no earlier stop, error cap reached, fatal framing error} x {SIGINT, SIGTERM, SIGHUP} x {one, two signals} with the input pipe held open, and one signal 0/2/5/20 ms after start: one signal never forces the exit (no 'ungraceful shutdown', no panic, no fatal signal, end within the wall cap). CLI: views, filtered data, report and -S stdout with the stdout pipe shrunk to 4 KiB and closed after N bytes (every N <= 200, 1000..1050 and every 211th beyond in quick, every N in thorough): no signal, no timeout, no panic text. Conformance: all operation sequences to depth 5 (6 thorough) over 2 sender and 2 receiver handles on real crossbeam bounded(1)/bounded(2)/unbounded and flume agree with the scheduler's rules.",
+         "sched: the real pipeline with every bounded queue overridden to capacity 1 or 2 and batches of 2 packets; a Signal pseudo-thread (does what the ctrl-c handler does) is a lazy thread, so each 1-deviation schedule places the signal at one scheduling point of the default schedule (thorough: of every 1-deviation schedule); error cap -e N for every N up to the exact number of errors of the stream (the stop flag itself must be raised in every execution: reaching the cap cuts the run short); a fatal framing error at every packet index; check all, check all its and filtered writing. Per execution: terminates (exact enabledness: no enabled thread while some thread is alive = deadlock; step horizon), no panic, main reaches its end with every thread joined, a filtered output file walks as whole packets and is a prefix of the expected filtered stream. Vacuity guards: a bounded queue was full in some execution, the stop flag was raised. Real OS signals on the real binary (the ctrl-c handler itself): {no earlier stop, error cap reached, fatal framing error} x {SIGINT, SIGTERM, SIGHUP} x {one, two signals} with the input pipe held open, and one signal 0/2/5/20 ms after start: one signal never forces the exit (no 'ungraceful shutdown', no panic, no fatal signal, end within the wall cap). CLI: views, filtered data, report and -S stdout with the stdout pipe shrunk to 4 KiB and closed after N bytes (every N <= 200, 1000..1050 and every 211th beyond in quick, every N in thorough): no signal, no timeout, no panic text. Conformance: all operation sequences to depth 5 (6 thorough) over 2 sender and 2 receiver handles on real crossbeam bounded(1)/bounded(2)/unbounded and flume agree with the scheduler's rules.",
          "OS signal delivery / the ctrlc crate are outside the scheduler (the handler body is modelled; the real handler is exercised by a menu of real signals, not at every instant). Step horizon and a 10 s wall cap stand in for 'bounded time'. TLA+ (models/Shutdown.tla): TLC verifies deadlock freedom, orderly end and termination for signal / error-cap / fatal-error instances over all interleavings; every implementation execution explored by the scheduler for the matching instance is projected onto the model's action labels and walked through TLC's dumped state graph (trace inclusion; model states / edges covered are reported). Model paths beyond the deviation bound are not replayed on the code.",
          True),
 })
@@ -91,7 +91,7 @@ CHECKS.update({
          True),
  "C06": ("enum", "exploration",
          "exhaustive enumeration of order-preserving merges of per-link packet sequences; differential comparison of the per-link message lists across full run, filters, extraction and a single sequential pass",
-         "Every order-preserving merge for the shapes (3,3) and (2,2,2) (thorough: + (4,4), (3,2,2)) of per-link sequences of an inner-barrel link and two outer-layer links (format 0 / format 2; in stave mode the two outer FEE ids share one link id, so --filter-link selects both and they must still be judged apart) x {all clean, all corrupted (2 variants), one corrupted link at a time} x {check all its, check all, check all its-stave with ALPIDE frames}. Each merged stream: in-process real scanner + validators for the full run and for --filter-link / --filter-fee / --filter-its-stave of every link, and on the real multi-threaded CLI (full run, physically extracted single-link file, --filter-link; every 5th merge in quick, all in thorough). Per owning link the ordered message list must equal the one of a single synchronous LinkValidator pass over that link alone, after rewriting offsets through the layout map; a filter run must report nothing owned by another link.",
+         "Every order-preserving merge for the shapes (3,3) and (2,2,2) (thorough: + (4,4), (3,2,2)) of per-link sequences of an inner-barrel link and two outer-layer links (format 0 / format 2; in stave mode the two outer FEE ids share one link id, so --filter-link selects both and they must still be judged apart) x {all clean, all corrupted (2 variants), one corrupted link at a time} x {check all its, check all, check all its-stave with ALPIDE frames}. Each merged stream: in-process real scanner + validators for the full run and for --filter-link / --filter-fee / --filter-its-stave of every link, and on the real multi-threaded CLI (full run, physically extracted single-link file, --filter-link; every 5th merge in quick, all in thorough); plus two links x 106 packets round robin (three reader batches) with six kinds of header corruption on one link at merged-file packets 98/100/102/200 and errors on the other. Per owning link the ordered message list must equal the one of a single synchronous LinkValidator pass over that link alone, after rewriting offsets through the layout map; a filter run must report nothing owned by another link.",
          "Streams with fatal framing errors / unknown system id and sequences whose own first packet has an RDH0 fault are excluded (DESIGN.md C06). 12-link streams are not enumerated.",
          True),
 })
@@ -99,7 +99,7 @@ CHECKS.update({
 CHECKS.update({
  "C13": ("enum+xs", "model_checking",
          "bounded-exhaustive enumeration of encoder-produced readout frames and of frame sequences (fatal-lane memory as a state machine over normal/fatal/absent per lane) through the real LinkValidator in stave mode, judged by the documented rules",
-         "Frames from the independent ALPIDE encoder through a real LinkValidator (check all its-stave): inner barrel all 255 lane subsets of size <= 4 (accepted iff one of the fixed groups), chip id / chip count / bunch-counter variants; all 256 bunch-counter byte values x {all chip-empty frames, all header+hit+trailer, mixed}; every hit-content sequence of length <= 2 (3 thorough) over a 10-symbol alphabet whose bytes imitate chip headers, trailers, empty frames and APEs, on a valid and on an invalid frame, with the frame split over pages and a no-data TDH in front in rotation (verdict and ALPIDE readout-flag counters must not vary); middle/outer layers 3..6: legal set, one lane missing, one extra, 6 / 8 chips, permuted order, chip or lane bunch counter deviating, with and without custom chip count/order; every sequence of <= 2 (3 thorough) frames in which each of the three lanes of a group is normal / announces a fatal state / is absent, for each inner-barrel lane group 0..2, 3..5, 6..8 (2 106 sequences quick); for layers 3..6 every lane of the legal set announcing a fatal state, followed by frames without it (clean), without it and another lane (count error) and without it again. Per frame the set of codes {E72,E73,E74,E75} reported at the frame's start offset must equal the documented verdict; frame-level messages anywhere else are violations.",
+         "Frames from the independent ALPIDE encoder through a real LinkValidator (check all its-stave): inner barrel all 255 lane subsets of size <= 4 (accepted iff one of the fixed groups), chip id / chip count / bunch-counter variants; every chip list of length 1..2 over {lane, lane+1} x {empty frame, header+hit+trailer} x {frame BC, other BC} in one lane; all 256 bunch-counter byte values x {all chip-empty frames, all header+hit+trailer, mixed}; every hit-content sequence of length <= 2 (3 thorough) over a 10-symbol alphabet whose bytes imitate chip headers, trailers, empty frames and APEs, on a valid and on an invalid frame, with the frame split over pages and a no-data TDH in front in rotation (verdict and ALPIDE readout-flag counters must not vary); middle/outer layers 3..6: legal set, one lane missing, one extra, 6 / 8 chips, permuted order, chip or lane bunch counter deviating, with and without custom chip count/order; every sequence of <= 2 (3 thorough) frames in which each of the three lanes of a group is normal / announces a fatal state / is absent, for each inner-barrel lane group 0..2, 3..5, 6..8 (2 106 sequences quick); for layers 3..6 every lane of the legal set announcing a fatal state, followed by frames without it (clean), without it and another lane (count error) and without it again. Per frame the set of codes {E72,E73,E74,E75} reported at the frame's start offset must equal the documented verdict; frame-level messages anywhere else are violations.",
          "Abstains on frames in which a lane that announced a fatal state is itself present (the documents do not say how it is counted). Hit values are from a finite adversarial alphabet, not all values.",
          True),
 })
@@ -120,7 +120,7 @@ CHECKS.update({
 CHECKS.update({
  "C16": ("enum", "exploration",
          "bounded-exhaustive CLI enumeration of input classes x option menu against the documented contract table; all code pairs through the real display filter",
-         "Input classes {clean; 1, 2, 21 errors; a stream with mixed codes incl. E44/E444/E445; a fatal framing error at every packet index; {fatal framing error, truncated last payload, RDH sanity fault, clean} x 7 modes incl. the three views and data to stdout (modes that print no report) with the oracle exit = N iff an error was reported on stderr or in the statistics file; custom-check failures (four-digit codes) x code filters incl. their prefixes; thorough: every -E value 1..255 x {clean, one error, one muted error, fatal}; non-ALICE text, missing file, empty file, 3 bytes, RDH version 255} x options {-E 1/2/127/255, -m, -e N below/equal/above the true count, -w code lists incl. prefixes of other codes (4, 44, 444), each invalid combination named by the property}: exit status per contract (0 for clean data whatever -E; N when an error or a fatal input error was reported; non-zero for unreadable / unrecognisable input and invalid invocations, which must not create the -S / -o files), report and statistics totals equal the number of produced messages, muting and code filters change only what is shown (exactly the listed codes), an error cap N shows at most N messages. The display filter is additionally driven in-process (real ErrPrinter, capturing logger) on all 43 x 43 ordered (filter code, message code) pairs: shown iff equal.",
+         "Input classes {clean; 1, 2, 21 errors; a stream with mixed codes incl. E44/E444/E445; a fatal framing error at every packet index; {fatal framing error, truncated last payload, RDH sanity fault, clean} x 7 modes incl. the three views and data to stdout (modes that print no report) with the oracle exit = N iff an error was reported on stderr or in the statistics file; custom-check failures (four-digit codes) x code filters incl. their prefixes; thorough: every -E value 1..255 x {clean, one error, one muted error, fatal}; non-ALICE text, missing file, empty file, 3 bytes, RDH version 255} x options {-E 1/2/127/255, -m, -e N below/equal/above the true count, -w code lists incl. prefixes of other codes (4, 44, 444), each invalid combination named by the property}: exit status per contract (0 for clean data whatever -E; N when an error or a fatal input error was reported; non-zero for unreadable / unrecognisable input and invalid invocations, which must not create the -S / -o files), report and statistics totals equal the number of produced messages, muting and code filters change only what is shown (exactly the listed codes), an error cap N shows at most N messages. The display filter is additionally driven in-process (real ErrPrinter, capturing logger) on all 43 x 43 ordered (filter code, message code) pairs: shown iff equal; every message sequence of length <= 4 over 4 codes x 31 filter subsets x 5 display caps (shown = the first N listed messages). Option pairs: every subset of size <= 2 of an 11-atom option menu (-m, two -w lists, -e 2, -e 1000, -E 7, -S, -v 0, -f, -f -o, -c) x 2 check modes x {mixed-code stream, clean stream} against its reference run (shown messages, exit status, statistics total).",
          "With an error cap the run stops early: totals are not judged there.",
          True),
 })
@@ -128,7 +128,7 @@ CHECKS.update({
 CHECKS.update({
  "C19": ("enum", "exploration",
          "bounded-exhaustive CLI enumeration of streams over the full word / header alphabet x views x styles x filters; every printed row parsed back and compared with the model's decode of the bytes at that offset",
-         "Alphabet streams: 8 RDH variants (versions 6/7, stop 0/1, 7 layer/stave pairs incl. 47 and layer 6, link ids up to 15, 8 trigger kinds incl. SOC/SOT/HB/PhT/other/all-ones, 8 detector-field patterns incl. each lane-status bit and bits 24-26, orbit / BC extremes) and words: IHW, all 32 TDH combinations of trigger kind x internal x no-data x continuation, 24 TDT and 12 DDW0 lane-fault patterns (none / warning / error / fatal at lanes 0, 13, 27 and mixed), CDW, 9 data-word ids; x data formats 0 and 2 x value variants x {view rdh, its-readout-frames, its-readout-frames-data} x {no filter, link, FEE, layer-stave} x {-d, styled}. One row per RDH / status word (/ data word) in order; offset, word type, quoted bytes and every decoded attribute (trigger kind, Cont., No data / Data!, Complete / Split, lane faults, link, stave, orbit_BC, all view rdh columns) equal the model's decode; styled output with ANSI sequences stripped has the same tokens; on the 6 conforming witnesses the word types shown equal the ground-truth classification.",
+         "Alphabet streams: 8 RDH variants (versions 6/7, stop 0/1, 7 layer/stave pairs incl. 47 and layer 6, link ids up to 15, 8 trigger kinds incl. SOC/SOT/HB/PhT/other/all-ones, 8 detector-field patterns incl. each lane-status bit and bits 24-26, orbit / BC extremes) and words: IHW, all 32 TDH combinations of trigger kind x internal x no-data x continuation, 24 TDT and 12 DDW0 lane-fault patterns (none / warning / error / fatal at lanes 0, 13, 27 and mixed), CDW, 9 data-word ids; x data formats 0, 2 and alternating within one batch x value variants x {view rdh, its-readout-frames, its-readout-frames-data} x {no filter, link, FEE, layer-stave} x {-d, styled}. One row per RDH / status word (/ data word) in order; offset, word type, quoted bytes and every decoded attribute (trigger kind, Cont., No data / Data!, Complete / Split, lane faults, link, stave, orbit_BC, all view rdh columns) equal the model's decode; styled output with ANSI sequences stripped has the same tokens; on the 6 conforming witnesses the word types shown equal the ground-truth classification.",
          "Spacing is normalised; colours are not judged. Payloads whose second word begins with six zero bytes are the known finding of C12 and are not placed in these streams.",
          True),
 })
@@ -136,7 +136,7 @@ CHECKS.update({
 CHECKS.update({
  "C20": ("xs+enum", "model_checking",
          "explicit-state BFS to fixpoint over the product (trigger-period rule x real CdpRunningValidator) per configured period; exhaustive CLI enumeration of custom-check key subsets x values",
-         "xs: for P in {1, 891, 3563} the product of the real TDH period check (inside a real CdpRunningValidator in stave mode with -p P) and the model 'E45 exactly for consecutive internal-trigger TDHs whose BC distance modulo 3564 differs from P' over the alphabet BC in {0, 1, P-1, P, 3563-P+1, 3563} x internal 0/1 x {no-data TDH, data event whose frame is continued on the next page (TDT packet_done 0, IHW, TDH continuation with the same BC)} is explored to its fixpoint (3 979 states, 83 540 transitions; key = last internal BC + implementation fingerprint), E45 judged on every transition and required at the TDH's own offset. enum (CLI, check all its-stave on an outer-layer stream with ALPIDE frames and known counts): all 32 subsets of {cdps, triggers_pht, rdh_version, chip_count_ob, chip_orders_ob}, every key of the subset at the true value and, one at a time, at truth-1 and truth+1 (chip orders: swapped pair / shifted list): the documented code (E9001, E9002, E10, E9004, E9005) appears iff observed != configured, exit status 9 iff so; a file with every key commented out and the generated all-default file give byte-identical output (stderr + report) to no file, in three modes.",
+         "xs: for P in {1, 891, 3563, 3564, 4455} the product of the real TDH period check (inside a real CdpRunningValidator in stave mode with -p P) and the model 'E45 exactly for consecutive internal-trigger TDHs whose BC distance modulo 3564 differs from P' over the alphabet BC in {0, 1, P-1, P, 3563-P+1, 3563} x internal 0/1 x {no-data TDH, data event whose frame is continued on the next page (TDT packet_done 0, IHW, TDH continuation with the same BC)} is explored to its fixpoint (3 979 states, 83 540 transitions; key = last internal BC + implementation fingerprint), E45 judged on every transition and required at the TDH's own offset. enum (CLI, check all its-stave on an outer-layer stream with ALPIDE frames and known counts): all 32 subsets of {cdps, triggers_pht, rdh_version, chip_count_ob, chip_orders_ob}, every key of the subset at the true value and, one at a time, at truth-1 and truth+1 (chip orders: swapped pair / shifted list): the documented code (E9001, E9002, E10, E9004, E9005) appears iff observed != configured, exit status 9 iff so; a file with every key commented out and the generated all-default file give byte-identical output (stderr + report) to no file, in three modes.",
          "Values one below / one above the truth stand for 'differs'; BCs outside 0..3563 are not generated.",
          True),
 })
